@@ -542,8 +542,12 @@ func apiDiffs(c *ExecCase, direct ExecOut) (diffs []string) {
 		static: interpreter.StaticStore{Balances: bal, Meta: meta}}
 	var res numscript.ExecutionResult
 	var err numscript.InterpreterError
+	apiVars := copyVars(c.Vars)
+	if len(c.Vars) == 0 {
+		apiVars = nil // a caller without variables passes a nil map
+	}
 	if len(c.Flags) == 0 {
-		res, err = pr.Run(context.Background(), copyVars(c.Vars), store)
+		res, err = pr.Run(context.Background(), apiVars, store)
 	} else {
 		flags := map[string]struct{}{}
 		for _, f := range c.Flags {
